@@ -243,3 +243,63 @@ func H_C18_lifecycle() {
 	same("all-tags-after-second-refresh")
 	vReach("end")
 }
+
+//verif:witness H_C18_helpers_long accepted refused
+//verif:bound C18 all helper-built names at the length limit: app/biz/rpc helper x sub-type of the length that makes the whole name 35, 36 or 37 characters x no action / action of 1 or 5 characters: the helper accepts exactly when the name has at most 36 characters, i.e. exactly when RegisterTag accepts the identical string
+func H_C18_helpers_long() {
+	vOpt("loop", 200)
+	total := 35 + vChoose("total", 3)
+	alen := [3]int{0, 1, 5}[vChoose("action", 3)]
+	slen := total - 5
+	if alen > 0 {
+		slen -= 1 + alen
+	}
+	mk := func(name string, n int) string {
+		b := make([]byte, n)
+		for i := range b {
+			b[i] = 'a'
+		}
+		c := vByte(name)
+		vAssume(('a' <= c && c <= 'z') || ('0' <= c && c <= '9'))
+		b[n-1] = c
+		return string(b)
+	}
+	sub := mk("sub", slen)
+	act := ""
+	if alen > 0 {
+		act = mk("act", alen)
+	}
+	which := vChoose("helper", 3)
+	main := [3]string{"app", "biz", "rpc"}[which]
+	want := "_" + main + "_" + sub
+	if alen > 0 {
+		want += "_" + act
+	}
+	var t *Tag
+	panicked := false
+	func() {
+		defer func() {
+			if recover() != nil {
+				panicked = true
+			}
+		}()
+		switch which {
+		case 0:
+			t = RegisterAppTag(sub, act)
+		case 1:
+			t = RegisterBizTag(sub, act)
+		default:
+			t = RegisterRPCTag(sub, act)
+		}
+	}()
+	defer delete(tagRegistry, want)
+	if total <= 36 {
+		vAssert(!panicked && t != nil && t.tag == want, "helper-built-name-of-valid-length-accepted")
+		vReach("accepted")
+	} else {
+		vAssert(panicked, "helper-built-name-beyond-36-characters-refused")
+		_, registered := tagRegistry[want]
+		vAssert(!registered, "refused-name-registers-nothing")
+		vReach("refused")
+	}
+}
